@@ -36,7 +36,9 @@ import numpy as np  # noqa: E402
 from . import core
 
 UNIVERSAL = ("mzi_last", "bs_ps")
-BLOCK_NAMES = ["mzi_last", "bs_ps", "bs", "bsphase_ps", "bsH_ps", "bsRy_ps", "bsphase2_ps", "mzi_first", "bsH_phibl"]
+BLOCK_NAMES = ["mzi_last", "bs_ps", "bs", "bsphase_ps", "bsH_ps", "bsRy_ps", "bsphase2_ps", "mzi_first", "bsH_phibl",
+               "bsH_fixed", "bs_fixed"]
+NO_FREE_PARAM = ("bsH_fixed", "bs_fixed")          # blocks without any free parameter: `solve` gets x0 == []
 
 
 # ------------------------------------------------------------------------------------------------
@@ -64,7 +66,53 @@ def make_block(name):
         return BS.Ry(theta=P("theta")) // (1, PS(phi=P("phi")))
     if name == "bsH_phibl":
         return BS.H(theta=P("theta"), phi_bl=P("phi"))
+    if name == "bsH_fixed":           # no free parameter at all: the solver only has to *decide* f([]) <= precision
+        return BS.H()
+    if name == "bs_fixed":
+        return BS(theta=0.9, phi_tr=0.2)
     raise ValueError(name)
+
+
+_BLOCK_U = {}
+
+
+def block_unitary(name, vals):
+    """2x2 matrix of the block `name` with its free parameters (in `get_parameters()` order) set to `vals`,
+    computed by the block's own compute_unitary (the same source the leaves' matrices are taken from)."""
+    key = (name, tuple(float(v) for v in vals))
+    if key not in _BLOCK_U:
+        b = make_block(name)
+        ps = b.get_parameters()
+        if len(ps) != len(vals):
+            raise ValueError(f"block {name} has {len(ps)} free parameters, {len(vals)} values given")
+        for p, v in zip(ps, vals):
+            p.set_value(float(v))
+        _BLOCK_U[key] = np.array(b.compute_unitary(use_symbolic=False), dtype=complex)
+    return _BLOCK_U[key]
+
+
+def free_param_names(name):
+    return [p.name for p in make_block(name).get_parameters()]
+
+
+def mesh_matrix(n, seed, block, cells):
+    """U = B_1 · B_2 · … · B_k · D: the blocks in the order `decompose_triangle` eliminates its cells
+    (`for j in range(n-1, 0, -1): for i in range(j)`, block on rows (i, i+1)), `cells[c]` = parameter values of the
+    block in cell c or None for an empty cell, D a random diagonal of phases.  With `constraints=[vals]` the imposed
+    values null every targeted entry exactly (to rounding), an empty cell leaves an exact zero."""
+    rs = np.random.RandomState(seed % (2 ** 31))
+    u = np.eye(n, dtype=complex)
+    c = 0
+    for j in range(n - 1, 0, -1):
+        for i in range(j):
+            vals = cells[c] if c < len(cells) else None
+            c += 1
+            if vals is None:
+                continue
+            e = np.eye(n, dtype=complex)
+            e[i:i + 2, i:i + 2] = block_unitary(block, vals)
+            u = u @ e
+    return u @ np.diag([unit_phase(rs) for _ in range(n)])
 
 
 def haar(rs, n):
@@ -140,6 +188,8 @@ def make_matrix(kind, n, seed):
 def spec_matrix(spec):
     if "U" in spec:
         return np.array([[complex(a, b) for a, b in row] for row in spec["U"]], dtype=complex)
+    if spec["kind"] == "mesh":
+        return mesh_matrix(spec["n"], spec["seed"], spec["block"], spec["mesh"])
     return make_matrix(spec["kind"], spec["n"], spec["seed"])
 
 
@@ -179,6 +229,7 @@ def observe(spec):
             out["pattern"] = [_leaf_dict(r, c, False) for r, c in block]
         else:
             out["pattern"] = [_leaf_dict(tuple(range(block.m)), block, False)]
+        out["free"] = [p.name for p in block.get_parameters()]
         u0 = spec_matrix(spec)
         if spec.get("malformed") == "nonunitary":
             u0 = u0.copy()
@@ -334,6 +385,33 @@ def parse_items(fl, pattern, spec):
     return phase, items
 
 
+def full_entries(spec):
+    """constraint entries that impose *every* free parameter of the block (nothing left to optimise)"""
+    return [c for c in (spec.get("constraints") or []) if all(x is not None for x in c)]
+
+
+def block_values(item, free):
+    """values of the block's free parameters (template order) in one copy of the block"""
+    d = {}
+    for lf in item["leaves"]:
+        d.update(lf.get("params") or {})
+    return [d.get(name) for name in free]
+
+
+def entry_matches(c, vals):
+    if len(c) != len(vals):
+        return False
+    for want, got in zip(c, vals):
+        if want is None:
+            continue
+        if got is None:
+            return False
+        d = (float(got) - float(want)) % (2 * math.pi)          # a periodic parameter may be stored reduced
+        if min(d, 2 * math.pi - d) > 1e-9:
+            return False
+    return True
+
+
 def lean_fold_request(spec, obs, Upre, phase, items, prec_scale=1.0):
     n = spec["n"]
     prec = spec.get("precision", 1e-6) * prec_scale
@@ -376,6 +454,8 @@ def judge(chk, obs):
         chk.count("side_effects", "input matrix modified in place")
     if obs.get("none"):
         chk.branch("none")
+        if spec.get("constraints") and len(full_entries(spec)) == len(spec["constraints"]):
+            chk.branch("constraint-full-none")          # every entry imposes all parameters and none was accepted
         unrestricted = spec.get("constraints") is None or any(all(x is None for x in c) for c in spec["constraints"])
         if spec["block"] in UNIVERSAL and unrestricted and spec.get("max_try", 10) >= 10:
             return ("violation", "universal-block-none",
@@ -403,6 +483,26 @@ def judge(chk, obs):
                 pm[x, i] = 1
             if np.max(np.abs(cm(lf["U"]) - pm)) > 1e-12:
                 return ("violation", "perm-matrix", f"PERM leaf at {lf['off']} does not have the matrix of {lf['perm']}")
+    # --- constraints: every solved block carries the values of one of the entries -------------------------------
+    nblocks = sum(1 for it in items if it["k"] == "block")
+    if not obs.get("free") and nblocks:
+        chk.branch("no-free-param-circuit")
+    if spec.get("constraints") is not None and not (v or h):
+        cons = spec["constraints"]
+        full = [all(x is not None for x in c) for c in cons]
+        for it in items:
+            if it["k"] != "block":
+                continue
+            vals = block_values(it, obs.get("free", []))
+            idx = next((k for k, c in enumerate(cons) if entry_matches(c, vals)), None)
+            if idx is None:
+                return ("broken", "constraint-not-respected",
+                        f"block at mode {it['off']} has parameters {dict(zip(obs.get('free', []), vals))}, which is "
+                        f"compatible with none of the constraints {cons}")
+            if full[idx] and len(cons[idx]):
+                chk.branch("constraint-full-used")
+            if any(full[:idx]):
+                chk.branch("constraint-full-rejected-then-fallback")
     # --- Lean: exact product ---------------------------------------------------------------------
     rep = chk.lean.ask({"op": "prod", "m": n, "leaves": [{"off": lf["off"], "U": core.mat(cm(lf["U"]))} for lf in flat]})
     if "err" in rep:
@@ -533,16 +633,107 @@ def gen_spec(rng, max_n, i):
         # restrictive first, unrestricted fallback (a constraint has one entry per free parameter: 2 here)
         spec["constraints"] = rng.choice([[[None, 0], [None, None]], [[math.pi, None], [None, None]],
                                           [[None, None]], [[None, 0.5]]])
+    if rng.random() < 0.24:
+        full_constraint_scenario(rng, spec)
     if r < 0.05:
         spec["malformed"] = rng.choice(["nonunitary", "constraints", "shape", "rectangle"])
         spec["n"] = min(spec["n"], 3)
     return spec
 
 
+NFREE = {"mzi_last": 2, "bs_ps": 2, "bs": 1, "bsphase_ps": 2, "bsH_ps": 2, "bsRy_ps": 2, "bsphase2_ps": 2,
+         "mzi_first": 2, "bsH_phibl": 2, "bsH_fixed": 0, "bs_fixed": 0}
+SPECIAL_ANGLES = [0.0, math.pi, math.pi / 2]
+
+
+def rand_values(rng, k, special=0.15):
+    """k imposed parameter values inside every parameter's range"""
+    return [rng.choice(SPECIAL_ANGLES) if rng.random() < special else round(rng.uniform(0.2, 2.9), 3) for _ in range(k)]
+
+
+def ncells_list(n, vals, rng=None, holes=0.0):
+    return [None if (rng is not None and rng.random() < holes) else list(vals) for _ in range(ncells(n))]
+
+
+def full_constraint_scenario(rng, spec):
+    """Constraints (or blocks) that leave the numerical solver *no free parameter*: `solve` then only decides whether
+    the imposed values null the targeted entry.  Shapes: a fully imposed entry alone on a matrix it does not solve
+    (only None or a correct circuit is valid), the same followed by less restrictive fallbacks, matrices that ARE
+    meshes of the block at the imposed values (the entry must be usable), meshes mixing two imposed settings, and
+    blocks without any free parameter."""
+    sc = rng.choice(["full-only", "full-only", "full-fallback", "full-fallback", "mesh-hit", "mesh-hit", "mesh-two",
+                     "mesh-miss", "nofree-mesh", "nofree-other", "partial-values"])
+    spec["scenario"] = sc
+    spec["n"] = min(spec["n"], 4)
+    for k in ("v", "h"):
+        spec.pop(k, None)
+    if sc.startswith("nofree"):
+        spec["block"] = rng.choice(NO_FREE_PARAM)
+        spec.pop("constraints", None)
+        if rng.random() < 0.4:
+            spec["constraints"] = [[]]
+        if sc == "nofree-mesh":
+            spec["kind"] = "mesh"
+            ign = spec.get("ignore", True)
+            spec["mesh"] = ncells_list(spec["n"], [], rng, holes=0.3 if ign else 0.0)
+            spec["perm"] = False
+        else:
+            spec["kind"] = rng.choice(["haar", "identity", "perm", "sparse", "diag"])
+            spec["max_try"] = 3
+        return
+    if spec["block"] in ("mzi_first", "bsH_phibl"):
+        spec["block"] = "bs_ps"
+    if rng.random() < 0.3:
+        spec["block"] = "bs"
+    if spec["block"] == "bs":
+        spec["n"] = min(spec["n"], 3)
+    k = NFREE[spec["block"]]
+    free = [None] * k
+    if sc == "full-only":
+        if spec["kind"] in ("identity", "diag"):
+            spec["kind"] = "haar"
+        spec["constraints"] = [rand_values(rng, k) for _ in range(rng.choice([1, 1, 2]))]
+        spec["max_try"] = rng.choice([1, 3])
+    elif sc == "full-fallback":
+        cons = [rand_values(rng, k, special=0.4)]
+        if k == 2 and rng.random() < 0.6:
+            part = rand_values(rng, k, special=0.4)
+            part[rng.randrange(k)] = None
+            cons.append(part)
+        cons.append(free)
+        spec["constraints"] = cons
+    elif sc == "partial-values":
+        part = rand_values(rng, k)
+        part[rng.randrange(k)] = None
+        spec["constraints"] = [part, free]
+    else:
+        vals = rand_values(rng, k, special=0.0)
+        spec["kind"] = "mesh"
+        ign = spec.get("ignore", True)
+        if rng.random() < 0.7:
+            spec["perm"] = False
+        if sc == "mesh-hit":
+            spec["mesh"] = ncells_list(spec["n"], vals, rng, holes=0.25 if ign else 0.0)
+            spec["constraints"] = rng.choice([[vals], [rand_values(rng, k), vals], [vals, free]])
+        elif sc == "mesh-two":
+            other = rand_values(rng, k, special=0.0)
+            spec["mesh"] = [list(rng.choice([vals, other])) for _ in range(ncells(spec["n"]))]
+            spec["constraints"] = [vals, other]
+        else:                                   # the matrix is a mesh at `vals`, the constraint imposes other values
+            spec["mesh"] = ncells_list(spec["n"], vals)
+            wrong = list(vals)
+            w = rng.randrange(k)
+            wrong[w] = round(wrong[w] + rng.choice([0.05, 0.5, 1e-3]), 4)
+            spec["constraints"] = [wrong]
+            spec["max_try"] = 2
+
+
 def expected_cost(spec):
     """rough relative cost, only used to start the long decompositions first"""
     c = ncells(spec["n"]) + 1
-    if spec["block"] in ("bs", "mzi_first", "bsH_phibl"):
+    if spec.get("scenario"):
+        c *= 0.5
+    elif spec["block"] in ("bs", "mzi_first", "bsH_phibl"):
         c *= 10          # ten full tries before answering None
     if spec["block"] in ("bsphase_ps", "bsphase2_ps"):
         c *= 2
@@ -624,6 +815,16 @@ def handle(chk, obs, pool_observe=observe, do_shrink=True):
         chk.branch("merge-off")
     if spec.get("constraints") is not None:
         chk.branch("constraints")
+        if full_entries(spec):
+            chk.branch("constraint-full")
+            chk.count("constraint_shape", "".join("F" if all(x is not None for x in c) else
+                                                  ("N" if all(x is None for x in c) else "p")
+                                                  for c in spec["constraints"]))
+    if spec["block"] in NO_FREE_PARAM:
+        chk.branch("block-no-free-param")
+    if spec["kind"] == "mesh":
+        chk.count("mesh", ("circuit" if "flat" in obs else "none" if obs.get("none") else "exc") + ":" +
+                  spec.get("scenario", "?"))
     if spec.get("v"):
         chk.branch("inverse_v")
     if spec.get("h"):
@@ -646,6 +847,143 @@ def handle(chk, obs, pool_observe=observe, do_shrink=True):
         chk.fail(kind, sig, what + f" [block={small['block']} n={small['n']} kind={small['kind']} "
                                    f"options={ {k: small[k] for k in ('phase', 'perm', 'v', 'h', 'ignore', 'merge', 'constraints') if k in small} }]",
                  {"spec": small})
+
+
+# ------------------------------------------------------------------------------------------------
+# the solver's own bookkeeping: `solve.py: solve` against the Lean model `Model/C12Solve.lean`
+# ------------------------------------------------------------------------------------------------
+from fractions import Fraction  # noqa: E402
+
+SOLVE_PREC = Fraction(1, 2 ** 20)          # dyadic, so that float and exact comparisons agree
+SOLVE_COEFFS = [Fraction(0), Fraction(1, 2), Fraction(-1, 2), Fraction(1), Fraction(-1), Fraction(2), Fraction(3, 4),
+                Fraction(-3, 2)]
+
+
+def _dy(rng):
+    return Fraction(rng.randint(-16, 16), 8)
+
+
+def gen_solve_case(rng):
+    """f(x) = |b + Σ aᵢ·xᵢ| with small dyadic coefficients (float arithmetic on them is exact), a constraint that imposes
+    all / some / none of the parameters, and b placed so that the imposed values are a root, a near-root (2^-30), on
+    the threshold, or not a root."""
+    k = rng.choice([0, 1, 1, 2, 2, 2, 3])
+    a = [rng.choice(SOLVE_COEFFS) for _ in range(k)]
+    shape = rng.choice(["all", "all", "mixed", "mixed", "none"])
+    if shape == "all":
+        cs = [_dy(rng) for _ in range(k)]
+    elif shape == "none":
+        cs = [None] * k
+    else:
+        cs = [(_dy(rng) if rng.random() < 0.5 else None) for _ in range(k)]
+    x0 = [_dy(rng) for _ in range(k)]
+    point = [c if c is not None else _dy(rng) for c in cs]
+    delta = rng.choice([Fraction(0), Fraction(0), Fraction(1, 2 ** 30), SOLVE_PREC, Fraction(1, 2 ** 19),
+                        Fraction(1, 2 ** 10), Fraction(1, 4), Fraction(1), Fraction(3)]) * rng.choice([1, -1])
+    b = -sum((ai * xi for ai, xi in zip(a, point)), Fraction(0)) + delta
+    return {"a": [str(x) for x in a], "b": str(b), "x0": [str(x) for x in x0],
+            "cs": [None if c is None else str(c) for c in cs], "allow": rng.random() < 0.1,
+            "bounds": rng.random() < 0.2}
+
+
+def observe_solve(cases):
+    """Run the real `solve` on every case (in a worker). Plain data out."""
+    import warnings
+    warnings.filterwarnings("ignore")
+    from perceval.utils.algorithms.solve import solve
+    outs = []
+    for cse in cases:
+        a = [float(Fraction(x)) for x in cse["a"]]
+        b = float(Fraction(cse["b"]))
+
+        def f(x, a=a, b=b):
+            return abs(b + sum(ai * float(xi) for ai, xi in zip(a, x)))
+        x0 = [float(Fraction(x)) for x in cse["x0"]]
+        cs = [None if c is None else float(Fraction(c)) for c in cse["cs"]]
+        bounds = [((-8.0, 8.0) if cse.get("bounds") else None) for _ in x0]
+        try:
+            res = solve(f, list(x0), list(cs), bounds, float(SOLVE_PREC), cse.get("allow", False))
+            outs.append({"res": None if res is None else [float(v) for v in res]})
+        except Exception as e:  # a Python exception of the code under test on a legal input is a finding
+            outs.append({"exc": type(e).__name__, "msg": str(e)[:200]})
+    return outs
+
+
+def judge_solve(chk, cse, out):
+    """-> None or (kind, signature, text)"""
+    a = [Fraction(x) for x in cse["a"]]
+    b = Fraction(cse["b"])
+    cs = [None if c is None else Fraction(c) for c in cse["cs"]]
+    x0 = [Fraction(x) for x in cse["x0"]]
+    k = len(cs)
+    allow = bool(cse.get("allow"))
+    free = [i for i, c in enumerate(cs) if c is None]
+    eff_free = [i for i in free if a[i] != 0]
+
+    def F(x):
+        return abs(b + sum((ai * xi for ai, xi in zip(a, x)), Fraction(0)))
+    if "exc" in out:
+        return ("broken", "solve-raises-" + out["exc"], f"solve raised {out['exc']}: {out.get('msg')}")
+    shape = "empty" if k == 0 else ("all-imposed" if not free else ("free" if len(free) == k else "partial"))
+    res = out["res"]
+    req = {"op": "solve", "a": cse["a"], "b": cse["b"], "x0": cse["x0"], "cs": cse["cs"], "prec": core.rat(SOLVE_PREC),
+           "allow": allow}
+    if res is None:
+        chk.count("solve", shape + ":none")
+        if not free:
+            chk.branch("solve-all-imposed-reject")
+        if eff_free:
+            # the minimiser gave up although a root exists: allowed ("returns nothing"), nothing to compare
+            chk.count("solve", "none-although-root-exists")
+            return None
+        point = [c if c is not None else x0[i] for i, c in enumerate(cs)]
+        if F(point) <= SOLVE_PREC or allow:
+            return ("broken", "solve-rejects-root",
+                    f"solve returned None although f = {float(F(point)):.3g} <= precision at the imposed values {cse['cs']}")
+        rep = chk.lean.ask(dict(req, opt=[core.rat(x0[i]) for i in free]))
+        if "err" in rep:
+            return ("broken", "lean-solve", f"model rejected the request: {rep['err']}")
+        if not rep.get("none"):
+            return ("broken", "solve-model-disagreement", f"code returned None, model returns {rep.get('res')}")
+        return None
+    chk.count("solve", shape + ":result")
+    rq = [Fraction(*float(v).as_integer_ratio()) for v in res]
+    if len(rq) != k:
+        return ("broken", "solve-result-length", f"solve returned {len(rq)} values for {k} parameters")
+    for i, c in enumerate(cs):
+        if c is not None and rq[i] != c:
+            return ("broken", "solve-imposed-value-moved",
+                    f"imposed value {float(c)} of parameter {i} came back as {res[i]} (constraint {cse['cs']})")
+    fx = F(rq)
+    if not allow and fx > SOLVE_PREC * (1 + Fraction(1, 10 ** 9)):
+        return ("broken", "solve-accepts-nonroot",
+                f"solve returned {res} with f = {float(fx):.3g} > precision = {float(SOLVE_PREC):.3g} "
+                f"(constraint {cse['cs']}, {len(free)} free parameter(s))")
+    if not free:
+        chk.branch("solve-all-imposed-accept" if k else "solve-no-parameter")
+    elif len(free) < k:
+        chk.branch("solve-partial")
+    else:
+        chk.branch("solve-free")
+    rep = chk.lean.ask(dict(req, opt=[core.rat(rq[i]) for i in free]))
+    if "err" in rep:
+        return ("broken", "lean-solve", f"model rejected the request: {rep['err']}")
+    if rep.get("none"):
+        if abs(fx - SOLVE_PREC) <= SOLVE_PREC * Fraction(1, 10 ** 6):
+            chk.count("solve", "threshold")
+            return None
+        return ("broken", "solve-model-disagreement", f"code returned {res}, model returns None (f = {float(fx):.3g})")
+    if [Fraction(x) for x in rep["res"]] != rq:
+        return ("broken", "solve-model-disagreement", f"code returned {res}, model {rep['res']}")
+    return None
+
+
+def handle_solve(chk, cse, out):
+    r = judge_solve(chk, cse, out)
+    if r is not None:
+        kind, sig, what = r
+        chk.count("failures", sig)
+        chk.fail(kind, sig, what, {"solve_case": cse})
 
 
 def load_corpus():
@@ -674,7 +1012,15 @@ def run(chk: core.Check):
     ]
     chk.required_branches = ["circuit", "none", "solved-block", "identity-skip", "perm-substitution", "phase-layer",
                              "no-phase-layer", "inverse_v", "inverse_h", "ignore-identity-off", "merge-off",
-                             "constraints", "rejected", "perm-wide"]
+                             "constraints", "rejected", "perm-wide",
+                             # the solver's path without any free parameter left (x0 == []): accepted, rejected,
+                             # rejected with a later entry taken, and blocks without free parameters
+                             "constraint-full", "constraint-full-used", "constraint-full-none",
+                             "constraint-full-rejected-then-fallback", "block-no-free-param",
+                             "no-free-param-circuit",
+                             # solve.py itself against its Lean model
+                             "solve-all-imposed-accept", "solve-all-imposed-reject", "solve-no-parameter",
+                             "solve-partial", "solve-free"]
     chk.lean = core.LeanDriver("C12")
     rng = chk.rng
     n_cases = chk.pick(150, 1500)
@@ -693,6 +1039,9 @@ def run(chk: core.Check):
         by_block = {}
         order = sorted(range(len(specs)), key=lambda i: -expected_cost(specs[i]))
         pending = {i: pool.apply_async(observe, (specs[i],)) for i in order}
+        solve_cases = [gen_solve_case(rng) for _ in range(chk.pick(150, 1500))]
+        nchunk = 10
+        solve_pending = [pool.apply_async(observe_solve, (solve_cases[c::nchunk],)) for c in range(nchunk)]
         for i in range(len(specs)):
             obs = pending.pop(i).get()
             tsum += obs["t"]
@@ -700,6 +1049,10 @@ def run(chk: core.Check):
             by_block[key] = round(by_block.get(key, 0.0) + obs["t"], 1)
             handle(chk, obs, pool_observe)
         chk.extra["cpu_s_by_block"] = by_block
+        for c in range(nchunk):
+            for cse, out in zip(solve_cases[c::nchunk], solve_pending[c].get()):
+                handle_solve(chk, cse, out)
+        chk.extra["solve_cases"] = len(solve_cases)
     chk.extra["decomposition_cpu_s"] = round(tsum, 1)
     chk.extra["pool_wall_s"] = round(time.time() - t0, 1)
     chk.extra["corpus_cases"] = ncorpus
@@ -708,5 +1061,9 @@ def run(chk: core.Check):
 def replay(chk, data):
     chk.lean = core.LeanDriver("C12")
     chk.rule = "replay of one stored configuration"
+    if "solve_case" in data["replay"]:
+        cse = data["replay"]["solve_case"]
+        handle_solve(chk, cse, observe_solve([cse])[0])
+        return
     spec = data["replay"]["spec"]
     handle(chk, observe(spec), do_shrink=False)
